@@ -5,11 +5,14 @@ import ScrapliProps.C17Lemmas
 
   Quantifiers: every core transport, EVERY host / user / key / path string (`List Char`, unbounded),
   every port, every combination of the other arguments, every file-system / ssh-config view
-  (`SshConfigView`: arbitrary `isFile`, `lookup`).  `fx : Fixes` says which of the fix commits the code
-  has: `Fixes.all` = /repo since caab241 / bf7e480 / 184466f (the headline theorems `reported_eq_dialed`,
-  `argv_wellformed`, `precedence`), `Fixes.none` = the tree before them (the `…_refuted` witnesses, kept as
-  regression facts); the `…_partial` theorems hold for all 16 combinations with hypotheses that depend on
-  the flags.  Still refuted on the fixed tree: full precedence for the system transport (`-p 22`, open finding).
+  (`SshConfigView`: arbitrary `isFile`, `lookup`).  `fx : Fixes` says which fixes the code has:
+  `Fixes.head` = /repo HEAD (commits caab241 / bf7e480 / 184466f), `Fixes.all` = HEAD + the PROPOSED
+  fixes/C17-reject-destination-syntax.patch, `Fixes.none` = the tree before the commits (the `…_refuted` witnesses,
+  kept as regression facts); the `…_partial` theorems hold for all 32 combinations with hypotheses that depend on
+  the flags.  On HEAD: `reported_eq_dialed`, `argv_wellformed`, `files_resolved` hold outright; precedence only as
+  `precedence_partial_fixed`, with two system-transport exclusions that are open findings, each with a
+  machine-checked refutation: `-p 22` beats the config (`precedence_full_refuted`, F16b) and a host word ssh
+  takes apart (`precedence_refuted_user_in_host`, `precedence_refuted_uri_in_host`, F16c).
 -/
 namespace Scrapli.Resolve
 open Scrapli.Gen.Resolve
@@ -48,9 +51,31 @@ theorem option_words_take_arguments :
     optP = ['-', 'p'] ∧ optO = ['-', 'o'] ∧ optI = ['-', 'i'] ∧ optL = ['-', 'l'] ∧ optF = ['-', 'F'] ∧
     (['p', 'o', 'i', 'l', 'F'].all fun c => sshArgOpts.contains c) = true ∧ argvSsh = "ssh".toList := by decide
 
+/-- `_update_ssh_args_from_ssh_config` on one row of the probed table: ssh config entry, explicit/omitted port
+    (830 / 22), own user and key -/
+def runUpdate (fx : Fixes) (i : Option Nat × Bool × Str × Str × Str × Str) : Nat × Nat × Str × Str :=
+  let init := if i.2.1 then 830 else 22
+  let v : SshConfigView := { home := [], isFile := fun _ => false,
+                             lookup := fun _ => { port := i.1, user := i.2.2.1, identityFile := i.2.2.2.2.1 } }
+  let d : Drv := { host := ['h'], port := init, user := i.2.2.2.1, password := [], key := i.2.2.2.2.2, passphrase := [],
+                   strict := true, cfgFile := ['/', 'c'], khFile := [] }
+  let b : BTA := { host := ['h'], port := init, tSocket := 0, tTransport := 0, extra := [] }
+  let r := updateFromSshConfig fx i.2.1 v d b
+  (r.1.port, r.2.port, r.1.user, r.1.key)
+
+/-- the hand-written `updateFromSshConfig` IS the real method on all 64 truthy/falsy combinations of (config
+    Port, port given, config User, auth_username, config IdentityFile, auth_private_key): the table is probed from the
+    live code by the translator, the two variant flags are read off two of its rows, and the remaining 62 rows
+    must then agree — a change of the precedence logic breaks this obligation, not only the differential -/
+theorem update_table_is_model :
+    ∀ row ∈ updateTable,
+      runUpdate ⟨true, updCfgPortDialed, updExplicitPortWins, true, false⟩ row.1 = row.2 := by decide
+
 /-! ## 1. reported = dialed -/
 
-/-- **reported = dialed, all variants**: host and port in `_base_transport_args` and every plugin argument of
+/-- **reported = dialed, all variants** (the host/port half is the content; the plugin-argument half restates that
+    `construct` copies the attributes by field name AFTER the ssh config is folded in — the statement order is
+    hand-written and tied by the differential, cf. mutation M1): host and port in `_base_transport_args` and every plugin argument of
     the transport equal the driver attributes, provided (only where the corresponding fix is absent) the
     host has no surrounding blanks and the reported ssh config file has no Port for the host other than
     the port the constructor started from. -/
@@ -232,7 +257,8 @@ theorem dash_word_is_never_destination (prog w : Str) (rest : List Str) (c : Cha
 
 /-! ## 2. precedence -/
 
-/-- **precedence, all variants**: explicit argument > ssh config (library ssh transports: folded in by
+/-- **precedence, all variants** (paths are taken as given: `str(Path(p))` normalisation — `./k`, `a//b`, trailing
+    `/` — is outside the model, the check generates normalised paths only): explicit argument > ssh config (library ssh transports: folded in by
     scrapli; system transport: read by ssh from the file handed over with -F / its defaults) > 22 / 23,
     for port, user and key *in effect*, under exactly these exclusions:
     system transport with omitted port and a config Port ≠ 22 (open finding: `-p 22` is always passed);
@@ -241,6 +267,7 @@ theorem dash_word_is_never_destination (prog w : Str) (rest : List Str) (c : Cha
 theorem precedence_partial (fx : Fixes) (a : Args) (v : SshConfigView) (r : Resolved)
     (hwf : v.WF) (hx : a.extra = []) (h : resolve fx a v = .ok r)
     (hDash : fx.rejectDashHost = false → isSystem a.transport = true → (strip a.host).head? ≠ some '-')
+    (hDest : isSystem a.transport = true → destPlain r.bta.host = true)
     (hSys : isSystem a.transport = true → a.port = none →
       ∀ q, (specCfgEntry a v).portTruthy = some q → q = 22)
     (hLib : consultsCfg a.transport = true → ∀ q, (specCfgEntry a v).portTruthy = some q →
@@ -256,16 +283,33 @@ theorem precedence_partial (fx : Fixes) (a : Args) (v : SshConfigView) (r : Reso
       cases hr : fx.rejectDashHost
       · exact hDash hr hs
       · exact hrej hr
-    exact precedence_sys fx a v key hwf hx ht hc hs hnd hk (hSys hs)
+    exact precedence_sys fx a v key hwf hx ht hc hs hnd (hDest hs) hk (hSys hs)
 
-/-- **precedence, after the fixes**: the only exclusion left is the system transport's `-p 22`. -/
-theorem precedence (fx : Fixes) (hp : fx.cfgPortDialed = true) (he : fx.explicitPortWins = true)
-    (hd : fx.rejectDashHost = true) (a : Args) (v : SshConfigView) (r : Resolved)
+/-- the dialed host is the stripped host once the strip fix is in -/
+theorem bta_host_stripped (fx : Fixes) (hs : fx.stripDialedHost = true) (a : Args) (v : SshConfigView) (r : Resolved)
+    (h : resolve fx a v = .ok r) : r.bta.host = strip a.host := by
+  obtain ⟨_, _, key, _, rfl⟩ := resolve_ok h
+  obtain ⟨-, fbh, -⟩ := folded_spec fx a v (strip a.host) key
+  rw [construct_bta, fbh]
+  simp [hs]
+
+/-- **precedence on the fixed code (/repo HEAD = `Fixes.head`, and with the proposed destination patch)**: two
+    exclusions are left, both for the system transport: the always-passed `-p 22` (open finding F16b) and — unless
+    `_setup_host` refuses such hosts (proposed patch) — a host word ssh takes apart (`user@host`, `ssh://…`,
+    open finding F16c). -/
+theorem precedence_partial_fixed (fx : Fixes) (hst : fx.stripDialedHost = true) (hp : fx.cfgPortDialed = true)
+    (he : fx.explicitPortWins = true) (hd : fx.rejectDashHost = true) (a : Args) (v : SshConfigView) (r : Resolved)
     (hwf : v.WF) (hx : a.extra = []) (h : resolve fx a v = .ok r)
+    (hDest : fx.rejectDestSyntax = false → isSystem a.transport = true → destPlain (strip a.host) = true)
     (hSys : isSystem a.transport = true → a.port = none →
       ∀ q, (specCfgEntry a v).portTruthy = some q → q = 22) :
-    PrecedenceHolds a v r :=
-  precedence_partial fx a v r hwf hx h (by simp [hd]) hSys (by simp [hp, he])
+    PrecedenceHolds a v r := by
+  refine precedence_partial fx a v r hwf hx h (by simp [hd]) ?_ hSys (by simp [hp, he])
+  intro hs
+  rw [bta_host_stripped fx hst a v r h]
+  cases hr : fx.rejectDestSyntax
+  · exact hDest hr hs
+  · exact resolve_ok_dest h hr
 
 /-- **the full precedence statement is false for every variant** (open finding): system transport, config
     file with `Port 2222` handed to ssh with -F, port omitted — `-p 22` wins. -/
@@ -274,10 +318,10 @@ theorem precedence_full_refuted (fx : Fixes) :
         (strip a.host).head? ≠ some '-' → resolve fx a v = .ok r → PrecedenceHolds a v r := by
   intro h
   have hr : resolve fx aSysPort vPort = .ok (got fx aSysPort vPort) :=
-    ok_of_toOption _ _ (by rcases fx with ⟨_ | _, _ | _, _ | _, _ | _⟩ <;> decide)
+    ok_of_toOption _ _ (by rcases fx with ⟨_ | _, _ | _, _ | _, _ | _, _ | _⟩ <;> decide)
   obtain ⟨e, he, hp, -, -⟩ := h aSysPort vPort _ (by decide) rfl (by decide) hr
   have hw : ((effective aSysPort.transport (got fx aSysPort vPort) vPort).toOption.map (·.port)) = some "22".toList := by
-    rcases fx with ⟨_ | _, _ | _, _ | _, _ | _⟩ <;> decide
+    rcases fx with ⟨_ | _, _ | _, _ | _, _ | _, _ | _⟩ <;> decide
   rw [he] at hw
   simp [Except.toOption] at hw
   rw [hw] at hp
@@ -298,9 +342,72 @@ theorem precedence_refuted_library_unfixed :
   rw [hw] at hp
   exact absurd hp (by decide)
 
+def aUserInHost : Args := { transport := .system, host := "admin@dev1".toList, user := "bob".toList }
+def aUriHost : Args := { transport := .system, host := "ssh://carl@dev1:2222".toList, user := "bob".toList, port := some 830 }
+
+/-- **/repo HEAD, open finding F16c**: host `admin@dev1` with `auth_username="bob"`: ssh splits the destination at
+    the `@` and, the destination standing before `-l bob`, logs in as `admin` — the explicit argument loses -/
+theorem precedence_refuted_user_in_host :
+    ¬ ∀ (a : Args) (v : SshConfigView) (r : Resolved), v.WF → a.extra = [] → (strip a.host).head? ≠ some '-' →
+        resolve Fixes.head a v = .ok r → PrecedenceHolds a v r := by
+  intro h
+  have hr : resolve Fixes.head aUserInHost vEmpty = .ok (got Fixes.head aUserInHost vEmpty) :=
+    ok_of_toOption _ _ (by decide)
+  obtain ⟨e, he, -, hu, -⟩ := h aUserInHost vEmpty _ (by decide) rfl (by decide) hr
+  have hw : ((effective aUserInHost.transport (got Fixes.head aUserInHost vEmpty) vEmpty).toOption.map (·.user)) =
+      some "admin".toList := by decide
+  rw [he] at hw
+  simp [Except.toOption] at hw
+  rw [hw] at hu
+  exact absurd hu (by decide)
+
+/-- **/repo HEAD, F16c**: host `ssh://carl@dev1:2222` with `port=830`: ssh dials port 2222 (and logs in as `carl`) -/
+theorem precedence_refuted_uri_in_host :
+    ¬ ∀ (a : Args) (v : SshConfigView) (r : Resolved), v.WF → a.extra = [] → (strip a.host).head? ≠ some '-' →
+        resolve Fixes.head a v = .ok r → PrecedenceHolds a v r := by
+  intro h
+  have hr : resolve Fixes.head aUriHost vEmpty = .ok (got Fixes.head aUriHost vEmpty) :=
+    ok_of_toOption _ _ (by decide)
+  obtain ⟨e, he, hp, -, -⟩ := h aUriHost vEmpty _ (by decide) rfl (by decide) hr
+  have hw : ((effective aUriHost.transport (got Fixes.head aUriHost vEmpty) vEmpty).toOption.map (·.port)) =
+      some "2222".toList := by decide
+  rw [he] at hw
+  simp [Except.toOption] at hw
+  rw [hw] at hp
+  exact absurd hp (by decide)
+
+def errOf {α : Type} : Except Err α → Option Err
+  | .error e => some e
+  | .ok _ => none
+
+/-- with the proposed patch both hosts are refused by the constructor -/
+theorem destination_syntax_refused_when_patched :
+    errOf (resolve Fixes.all aUserInHost vEmpty) = some .destSyntaxHost ∧
+    errOf (resolve Fixes.all aUriHost vEmpty) = some .destSyntaxHost ∧
+    destPlain aUserInHost.host = false ∧ destPlain aUriHost.host = false := by decide
+
+/-! ## 2b. the reported file names -/
+
+/-- **the reported ssh config file and known-hosts file follow the documented resolution** (all variants):
+    telnet or `False` → none; `True`/`""` on the system transport → the marker (ssh uses its own files); else the
+    given path if it exists, else `~/.ssh/config` (`~/.ssh/known_hosts`), else `/etc/ssh/ssh_config`
+    (`/etc/ssh/ssh_known_hosts`), else none.  Together with `reported_eq_dialed` / `argv_wellformed` these are the
+    files the transports use (`-F`, `-o UserKnownHostsFile=`, plugin args). -/
+theorem files_resolved (fx : Fixes) (a : Args) (v : SshConfigView) (r : Resolved) (h : resolve fx a v = .ok r) :
+    r.reported.cfgFile = specFile v a.transport a.cfgArg magicCfg userCfgPath sysCfgPath ∧
+    r.reported.khFile = specFile v a.transport a.khArg magicKh userKhPath sysKhPath := by
+  obtain ⟨_, _, key, _, rfl⟩ := resolve_ok h
+  obtain ⟨-, -, fcfg, fkh, -⟩ := folded_spec fx a v (strip a.host) key
+  rw [construct_reported, fcfg, fkh, setupSshFileArgs_spec]
+  exact ⟨rfl, rfl⟩
+
 /-! ## 4. several drivers in one process: resolution is a function of the driver's own arguments -/
 
-/-- **history independence**: in a process whose cache of parsed ssh configs is consistent with the files
+/-- **history independence — an invariant of the MODEL's cache discipline** (true by construction of `step`, which
+    only ever stores `v.lookup file` and never writes into an entry; that the real constructor follows this
+    discipline is established by the history differential of the check and by the translator's probe, which
+    raises if `_update_ssh_args_from_ssh_config` changes the entry object it is handed).  Statement: in a process
+    whose cache of parsed ssh configs is consistent with the files
     (in particular the empty cache of a fresh process), every construction of a history — any length, any
     mix of transports, hosts, explicit and omitted arguments — returns exactly what it returns in
     isolation.  (The invariant behind it: entries handed out by the cache are only read.) -/
@@ -365,7 +472,7 @@ def vExSys : SshConfigView :=
   { home := "/home/u".toList, isFile := fun p => p == "/k y".toList || p == "/c".toList || p == "/kh".toList,
     lookup := fun p => if p == "/c".toList then { port := some 2222, user := "carl".toList } else {} }
 
-example : isSystem aExSys.transport = true ∧ aExSys.extra = [] ∧
+example : isSystem aExSys.transport = true ∧ aExSys.extra = [] ∧ destPlain aExSys.host = true ∧
     (resolve Fixes.all aExSys vExSys).toOption.map (·.argv) =
       some (["ssh", "dev1", "-p", "830", "-o", "ConnectTimeout=15", "-o", "ServerAliveInterval=30", "-i", "/k y",
              "-l", "-oFoo", "-o", "StrictHostKeyChecking=yes", "-o", "UserKnownHostsFile=/kh", "-F", "/c"].map String.toList) := by
